@@ -1118,11 +1118,18 @@ def main():
                     'inconclusive': inconclusive[:10],
                     'verus_wall_s': round(vr['wall'], 2),
                     'vacuity_canaries': ({'inserted': canary[0], 'verified_false': canary[1]} if canary else 'thorough tier only'),
+                    'explanation': ('%d of %d proof obligations (Verus) discharged over %d functions of the real source in this run; next to the proof, %d bounded '
+                                    'program(s) executed the real code against an executable twin of the specification (%s): %d cases in total, %d counterexample(s). '
+                                    'The bounded part is labelled bounded and is not counted as proved.%s'
+                                    % (max(discharged, 0), len(obl), len(hosts), len(standins), ', '.join(d.get('name', '?') for d in standins) or 'none',
+                                       sum(d.get('cases', 0) for d in standins), len(cexs),
+                                       ' For C14 the interoperation statement itself rests on the bounded program only; the proof covers the client-side obligations.' if pid == 'C14' else '')),
+                    'evaluations': max(sum(d.get('cases', 0) for d in standins), 0) + len(obl),
                 },
                 'assumptions': [
                     'soundness of Verus 0.2026.09.13 and Z3; --no-trait-conflicts',
                     'every item listed in coverage.trusted_base (assumed specifications of std, external_body project glue)',
-                    'normalisations N1/N3 listed in coverage.normalisations preserve semantics',
+                    'normalisations N1-N7 listed in coverage.normalisations preserve semantics (tools/normtest.py runs the crate\'s tests on the normalised text alone)',
                     'partial correctness only for functions marked exec_allows_no_decreases_clause',
                 ],
                 'wall_s': round(time.time() - t0, 2),
